@@ -1,6 +1,8 @@
 package props
 
 import (
+	"bytes"
+	"encoding/json"
 	"flag"
 	"fmt"
 	"hash/fnv"
@@ -193,6 +195,9 @@ func (w *Worker) Judge(cs ev.Case) bool {
 		w.s.c, w.s.since, w.s.busy = cs, time.Now(), true
 		w.s.mu.Unlock()
 	}
+	if len(cs.In)+len(cs.In2) >= journalMin || (cs.Kind == "long" && cs.N >= journalMin) {
+		defer w.journal(cs)()
+	}
 	r := safe(w.c.oracle, cs)
 	w.l.Count(cs, r.NT, r.Class)
 	if r.Err != "" {
@@ -200,6 +205,55 @@ func (w *Worker) Judge(cs ev.Case) bool {
 		return false
 	}
 	return true
+}
+
+// In-flight journal. Exhausting the goroutine stack (and a few other runtime failures, such as
+// concurrent map writes) is a fatal error that recover() cannot turn into a verdict: the test
+// process dies. Only large inputs can use up the 1 GB default stack, so every case of 256 kB or
+// more is written to <verif dir>/.inflight/ before the oracle runs and removed afterwards. When
+// the process dies, the driver re-runs each case left there in a fresh process (role "journal"
+// converts it into a replay file) and reports the one that kills it as the violation.
+const journalMin = 256 << 10
+
+func (w *Worker) journal(cs ev.Case) func() {
+	dir := filepath.Join(verifDir, ".inflight")
+	os.MkdirAll(dir, 0o755)
+	path := filepath.Join(dir, fmt.Sprintf("%s.%d.%p.case", w.c.id, os.Getpid(), w))
+	hdr, _ := json.Marshal(map[string]interface{}{"property": w.c.id, "kind": cs.Kind, "n": cs.N, "len_in": len(cs.In), "len_in2": len(cs.In2)})
+	f, err := os.Create(path)
+	if err != nil {
+		return func() {}
+	}
+	f.Write(append(hdr, '\n'))
+	f.WriteString(cs.In)
+	f.WriteString(cs.In2)
+	f.Close()
+	return func() { os.Remove(path) }
+}
+
+// journalChild: VERIF_CHILD=journal VERIF_JOURNAL=<file>: converts a journal entry into a replay file and prints its path.
+func journalChild() {
+	b, err := os.ReadFile(os.Getenv("VERIF_JOURNAL"))
+	if err != nil {
+		fmt.Println("journal: " + err.Error())
+		os.Exit(2)
+	}
+	i := bytes.IndexByte(b, '\n')
+	var h struct {
+		Property string `json:"property"`
+		Kind     string `json:"kind"`
+		N        int    `json:"n"`
+		LenIn    int    `json:"len_in"`
+		LenIn2   int    `json:"len_in2"`
+	}
+	if i < 0 || json.Unmarshal(b[:i], &h) != nil || len(b) != i+1+h.LenIn+h.LenIn2 {
+		fmt.Println("journal: entry is incomplete")
+		os.Exit(2)
+	}
+	body := b[i+1:]
+	rec := ev.New(h.Property, tier, seed, verifDir)
+	fmt.Println("JOURNAL-REPLAY " + rec.WriteReplay(ev.Case{Kind: h.Kind, N: h.N, In: string(body[:h.LenIn]), In2: string(body[h.LenIn:])}, "in flight when the test process died of a fatal runtime error"))
+	os.Exit(0)
 }
 
 // JudgeSlow is Judge with an exact watchdog stamp (for long-running cases).
